@@ -183,6 +183,13 @@ def _canon(e):
         if (isinstance(v, tuple) and len(v) == 3 and v[0] == "tuple" and all(isinstance(x, tuple) and len(x) == 3 and x[0] == "item" for x in v[1:]) and v[1][2] == 0 and v[2][2] == 1
                 and v[1][1] == v[2][1] and isinstance(v[1][1], tuple) and v[1][1][0] == "elem" and v[1][1][1] == it):
             return ("call", "dict", (canon(it),), ())  # {k: v for k, v in pairs} is dict(pairs)
+    if t == "comp" and len(e) == 5:
+        # the filter of a comprehension is a conjunction: its order is immaterial
+        try:
+            filt = tuple(sorted(set((canon(a), bool(p)) for a, p in e[4]), key=repr))
+        except Exception:
+            filt = _canon_any(e[4])
+        return ("comp", e[1], _canon_any(e[2]) if not (isinstance(e[2], tuple) and e[2] and isinstance(e[2][0], str)) else canon(e[2]), canon(e[3]) if isinstance(e[3], tuple) else e[3], filt)
     if t == "dictmerge" and len(e) == 3:
         a, b = e[1], e[2]
         # the result is a new dict either way: a copy of the first operand is the first operand
@@ -260,6 +267,13 @@ def _canon_cmp(op, a, b):
             res = ("is", x, y)
         return res if op == "is" else neg_atom(res)
     if op in ("in", "notin"):
+        if isinstance(b, tuple) and b and b[0] in ("tuple", "list") and 1 <= len(b) - 1 <= 4 and not any(isinstance(x, tuple) and x and x[0] == "starred" for x in b[1:]):
+            # x in (a, b): x == a or x == b (identity implies equality; the node classes define no __eq__, so both coincide)
+            alts = []
+            for y in b[1:]:
+                alts.append(_canon_cmp("is", a, y) if (y[0] == "none" or y[0] == "param" or y[0] == "fld") else _canon_cmp("==", a, y))
+            res = canon(("or",) + tuple(alts)) if len(alts) > 1 else alts[0]
+            return res if op == "in" else neg_atom(res)
         res = ("in", canon(a), canon(b))
         return res if op == "in" else neg_atom(res)
     # orderings: a < b  <=>  (a-b) < 0
@@ -279,12 +293,20 @@ def _canon_cmp(op, a, b):
     return ("cmp", op, d.canon())
 
 
+_FRAME_NAMES = ("universe", "data", "_universe", "_funiverse", "_original_data")
+
+
 def _never_none(x):
     """values that cannot be None whatever the inputs are"""
     if x[0] == "mcall" and len(x) > 2 and x[2] in ("get_loc", "copy", "dropna", "keys", "items", "values"):
         return True
     if x[0] == "rat":
         return True
+    if x[0] == "sub" and len(x) == 3 and isinstance(x[1], tuple) and x[1]:
+        # a column / row of one of bt's price frames is a Series or a number, never None (pandas indexing contract)
+        b = x[1]
+        if (b[0] == "param" and b[1] in _FRAME_NAMES) or (b[0] == "fld" and len(b) == 4 and b[2] in _FRAME_NAMES):
+            return True
     return x[0] in ("+", "-", "*", "/", "neg", "comp", "new", "num", "str", "bool", "tuple", "list", "dict")
 
 
